@@ -8,6 +8,7 @@ import TracingModel.Core.Wire
 import TracingModel.Core.DateTime
 import TracingModel.Spec.CivilJudge
 import TracingModel.Core.LevelsDriver
+import TracingModel.Core.CoreDriver
 
 open TM TM.Wire
 
@@ -37,6 +38,10 @@ def c20Judge (toks : List String) : String :=
 
 def dispatch (prop mode : String) : Option (List String → String) :=
   match prop, mode with
+  | "C01", "model" => some CoreDriver.model
+  | "C01", "spec" => some CoreDriver.spec
+  | "C02", "model" => some CoreDriver.model
+  | "C02", "spec" => some CoreDriver.spec
   | "C19", "model" => some LevelsDriver.model
   | "C19", "judge" => some LevelsDriver.judge
   | "C20", "model" => some c20Model
